@@ -355,12 +355,32 @@ func c03Property(t *rapid.T) {
 	}
 	req := s.p.Frame("2", rrSeq, []fixwire.Field{fixwire.F(7, strconv.Itoa(b)), fixwire.F(16, strconv.Itoa(e))}, peer.Opt{})
 	s.logf("ResendRequest(%d,%d) last=%d persist=%v dict=%v refuse=%v", b, e, last, persist, useDict, keysOf(refuse))
+	snapshot := func() [][]byte {
+		msgs, _ := s.r.Store().GetMessages(1, last)
+		out := make([][]byte, len(msgs))
+		for i, m := range msgs {
+			out[i] = append([]byte(nil), m...)
+		}
+		return out
+	}
+	storedBefore := snapshot()
 	st := s.r.In(req)
 	if st.Panic != nil {
 		vk.Violation(t, c, "C03/engine-panic", "%v\n%s", st.Panic, s.history())
 	}
 	reply := s.r.Outs(st)
 	c.Eval()
+	// answering a request reads the history, it does not rewrite it (a second request for the
+	// same numbers must find the same messages)
+	if storedAfter := snapshot(); len(storedAfter) != len(storedBefore) {
+		vk.Violation(t, c, "C03/history-changed-by-replay", "%d stored messages before the ResendRequest, %d after it\n%s", len(storedBefore), len(storedAfter), s.history())
+	} else {
+		for i := range storedBefore {
+			if !bytes.Equal(storedBefore[i], storedAfter[i]) {
+				vk.Violation(t, c, "C03/history-changed-by-replay", "stored message changed while the ResendRequest was answered:\n before %s\n after  %s\n%s", vk.Show(storedBefore[i]), vk.Show(storedAfter[i]), s.history())
+			}
+		}
+	}
 	// ---- the oracle
 	inf := (e == 0 && cfg.begin >= "FIX.4.2") || (e == 999999 && cfg.begin <= "FIX.4.2")
 	E := e
